@@ -13,3 +13,7 @@ Proof. reflexivity. Qed.
 
 Lemma blame_sites_nonempty : (100 <= List.length blame_sites)%nat.
 Proof. vm_compute. repeat constructor. Qed.
+
+(* the only pairwise (order-dependent) checks are the two recorded ones *)
+Lemma pairwise_sites_as_recorded : string_list_eqb pairwise_sites expected_pairwise_sites = true.
+Proof. vm_compute. reflexivity. Qed.
